@@ -472,6 +472,87 @@ class GlobalRepeat(Part):
         return None
 
 
+HELPERS = ["translate", "decode", "on_error_handler", "get", "getname",
+           "convert", "intern", "re", "functools", "chain", "str", "len",
+           "repeat", "template", "macros", "nothing",
+           "target_language", "macroname", "error", "modules", "type",
+           "encoded", "quote", "g_re_amp", "Symbol"]
+
+
+class Helpers(Part):
+    """A name of the engine's own helpers (or of a value the engine binds)
+    that a template defines holds, where it is read, what was defined."""
+    name = "helpers"
+    examples = {"quick": 200, "thorough": 2000}
+
+    def strategy(self, tier):
+        return st.fixed_dictionaries({
+            "name": st.sampled_from(HELPERS),
+            "via": st.sampled_from(["define", "repeat", "argument",
+                                    "global"]),
+            "read": st.sampled_from(["interp", "content", "attribute",
+                                     "condition"]),
+        })
+
+    def source(self, case):
+        n = case["name"]
+        if case["read"] == "interp":
+            r = "<b>${%s}</b>" % n
+        elif case["read"] == "content":
+            r = '<b tal:content="%s">x</b>' % n
+        elif case["read"] == "attribute":
+            r = '<b tal:attributes="title %s"/>' % n
+        else:
+            r = '<b tal:condition="%s == \'v\'">yes</b>' % n
+        if case["via"] == "define":
+            return '<i tal:define="%s \'v\'">%s</i>' % (n, r)
+        if case["via"] == "global":
+            return '<i tal:define="global %s \'v\'"/><i>%s</i>' % (n, r)
+        if case["via"] == "repeat":
+            return '<i tal:repeat="%s (\'v\',)">%s</i>' % (n, r)
+        return "<i>%s</i>" % r
+
+    def expected(self, case):
+        r = {"interp": "<b>v</b>", "content": "<b>v</b>",
+             "attribute": '<b title="v"/>', "condition": "<b>yes</b>"}[
+                 case["read"]]
+        if case["via"] == "global":
+            return "<i/><i>%s</i>" % r
+        return "<i>%s</i>" % r
+
+    def nontrivial(self, case):
+        return True
+
+    def labels(self, case):
+        yield "via_" + case["via"]
+
+    def oracle(self, case):
+        from chameleon import PageTemplate
+        src = self.source(case)
+        detail = {"source": src}
+        o = run(PageTemplate, src)
+        if not o.ok:
+            return Mismatch("helpers:compile raises " + o.exc_name,
+                            dict(detail, outcome=o.brief()))
+        env = {case["name"]: "v"} if case["via"] == "argument" else {}
+        o = run(o.value.render, **env)
+        bucket = None
+        if not o.ok:
+            bucket = "helpers:render raises " + o.exc_name
+            detail["outcome"] = o.brief()
+        elif o.value != self.expected(case):
+            bucket = "helpers:reads something else"
+            detail.update(got=o.value, expected=self.expected(case))
+        if bucket is None:
+            return None
+        if case["name"] in ("translate", "decode", "on_error_handler"):
+            return Mismatch("helpers:K13", detail)
+        return Mismatch(bucket, detail)
+
+    def known(self, case, mismatch):
+        return "K13" if mismatch.bucket == "helpers:K13" else None
+
+
 class ScopeObject(Stage):
     """Stateful model-based test of chameleon.utils.Scope."""
     name = "scopeobj"
@@ -605,7 +686,7 @@ CHECK = Check(
           ">= 2 nesting levels (or pre-bound and shadowed); reserved: 7 "
           "reserved and 5 near-miss names x 7 statement positions; scopeobj: "
           "state machine on utils.Scope, non-trivial = machines with a copy"),
-    parts=[ScopePart(), Reserved(), GlobalRepeat()],
+    parts=[ScopePart(), Reserved(), GlobalRepeat(), Helpers()],
     stages=[ScopeObject()],
     assumptions=[
         "documented special names (repeat, default, nothing, attrs, "
